@@ -125,6 +125,10 @@ func PVariants() []PVariant {
 		v  string
 		ok bool
 	}{{"heartbeat_interval", "999", false}, {"heartbeat_interval", "1000", true}, {"heartbeat_interval", "60000", true}, {"heartbeat_interval", "60001", false}, {"heartbeat_interval", "-1", true}, {"heartbeat_interval", `"x"`, false},
+		// far out of range, chosen so that a conversion to nanoseconds wraps into the range
+		{"heartbeat_interval", "18446744074710", false}, {"heartbeat_interval", "9223372036855", false}, {"heartbeat_interval", "4294968296", false},
+		{"msg_timeout", "18446744074710", false}, {"msg_timeout", "9223372036855", false}, {"msg_timeout", "4294968296", false},
+		{"output_buffer_timeout", "18446744073735", false}, {"output_buffer_size", "4294967360", false},
 		{"output_buffer_size", "63", false}, {"output_buffer_size", "64", true}, {"output_buffer_size", "65536", true}, {"output_buffer_size", "65537", false}, {"output_buffer_size", "-1", true},
 		{"output_buffer_timeout", "24", false}, {"output_buffer_timeout", "25", true}, {"output_buffer_timeout", "30000", true}, {"output_buffer_timeout", "30001", false}, {"output_buffer_timeout", "-1", true},
 		{"msg_timeout", "999", false}, {"msg_timeout", "1000", true}, {"msg_timeout", "900000", true}, {"msg_timeout", "900001", false}, {"msg_timeout", "-1", false},
